@@ -77,6 +77,9 @@ CLAIMED = {
  "C27": ("exploration", "fd 1/2 capture of an engine-only child process (plus strace write-syscall cross-check in the thorough tier)",
          "A child process built without -race runs ingest, flush (limit/time/explicit), query, merge and Stop histories with store failures at every call kind, corrupt/truncated files, external-writer files with absent filters, cancelled queries, unmarshalable rows and both Stop-deadline abandonment paths, with no Logger configured; both descriptors must stay empty and the child must exit 0.",
          "The child's own summary goes to a file, never to fd 1/2.", "6/C27"),
+ "C15": ("fault_enumeration", "crash-image enumeration at every filesystem mutation callback + shadow durability model fed by fsync syscalls observed with strace; every image reopened by a fresh store and engine",
+         "Each history runs in a child process under strace; after every filesystem mutation the directory is copied (process-crash image) with the ack set at that instant; durability facts (which file/directory fsyncs really returned between two crash points) come from the syscall trace, not from the hooks. Process-crash, torn-write and power-loss images (durable namespace + prefixes/subsets of pending namespace operations; unsynced tails dropped, truncated or zero-filled) must each recover: scan succeeds, yielded files fully readable, match-all query without error, every row acked before the crash point present, nothing never ingested, nothing more often than ingested.",
+         "Exhaustive over the mutation boundaries of each explored history; power-loss subsets sampled. Conservative POSIX model. If strace cannot run the hooks are trusted for durability (recorded in evidence).", "6/C15"),
 }
 
 NOT_YET = "check not built yet in this session (design in DESIGN.md section 6); not claimed until its monitor exists and is silent on the unchanged tree"
